@@ -2,6 +2,7 @@
    of the other areas (imported, not edited).  Definitions only.
 
    ANCHORS (the `input_token_ids=` / `get_entity_ids(...)` arguments, read line by line):
+     streamflow.core.utils.get_entity_ids
      streamflow.workflow.step.ScatterStep._scatter        every element AND the size token: get_entity_ids([token])
      streamflow.workflow.step.Transformer.run             get_entity_ids(inputs.values()), inputs = inputs_map.pop(tag)
      streamflow.workflow.step.ConditionalStep / CWLConditionalStep._on_true/_on_false   get_entity_ids(inputs.values())
@@ -17,6 +18,12 @@ From SF Require Import Base.Str Base.Dec Net.Model.
 From SF Require Gather.Model Comb.Model Loop.Model.
 Import ListNotations.
 Local Open Scope string_scope. Local Open Scope list_scope.
+
+(* ---------------------------------------------------------------- get_entity_ids *)
+(* streamflow.core.utils.get_entity_ids: [pe.persistent_id for pe in entities if pe.persistent_id] — a TRUTHINESS test:
+   an entity without id (None) is dropped, and so would be an id 0 (SQLite rowids start at 1) *)
+Definition get_entity_ids (l : list (option N)) : list N :=
+  flat_map (fun x => match x with Some n => if N.eqb n 0 then [] else [n] | None => [] end) l.
 
 (* ---------------------------------------------------------------- ScatterStep *)
 (* one _scatter(token) call: n elements and the size token, every one of them recorded with [id of token] *)
